@@ -464,6 +464,13 @@ def canon_exists(fl, test, val, sw=None):
         r = _peel_lookup(fl, ("place", test[1]))
         if r is None and test[1].startswith("_") and test[1][1:].isdigit():
             r = _peel_lookup(fl, ("tmp", int(test[1][1:])))
+        if r is None and sw is not None and not isinstance(sw, tuple):
+            # the scrutinee is an unnamed temporary (`if let Some(i) = m.get(k).copied()`): go through the statement
+            # that reads its discriminant
+            dd = fl.atom_def(sw)
+            rv_ = getattr(dd, "rv", None) if dd is not None else None
+            if rv_ is not None and rv_.k == "discr" and rv_.place is not None and not rv_.place.proj:
+                r = _peel_lookup(fl, ("tmp", rv_.place.local))
         if r is None:
             return None
         if isinstance(val, tuple) and len(val) == 1:
